@@ -225,7 +225,7 @@ def record_cover(vh, names, out_dir, wd):
     with the schedule that reached it) is executed on a real node by the script driver, in chunks."""
     import mc, gzip
     items = {i['name']: i for k in mc.NODE_FAMILIES for i in mc.NODE_FAMILIES[k]}
-    items.update({i['name']: i for i in mc.SYNC_FAMILIES + mc.DYN_FAMILIES + mc.LIVE_FAMILIES})
+    items.update({i['name']: i for i in mc.SYNC_FAMILIES + mc.DYN_FAMILIES + mc.LIVE_FAMILIES + mc.TX_FAMILIES})
     out = []
     for nm in names:
         nm, _, cap = nm.partition(':')      # "name:K" = the schedule of one state in K
